@@ -27,6 +27,9 @@ type View interface {
 	MtimeFree() bool
 }
 
+// DontCarer is implemented by views with byte ranges [lo,hi) the statement leaves unspecified.
+type DontCarer interface{ DontCare() [][2]int64 }
+
 // ViewFunc decides which view a regular file (or virtual path) must present. ok=false means the
 // model has no opinion (response content is then not judged, the slot becomes unknown).
 type ViewFunc func(w *World, osPath string, virtual int, rel string) (v View, mustFail bool, ok bool)
@@ -658,6 +661,14 @@ func (o *Oracle) expectBytes(op wire.Op, v View, off int64, n int64, what string
 			return &Fail{Rule: "harness", Feature: "view-read", Detail: err.Error(), Inconclusive: true}
 		}
 		o.BytesCompared += int64(len(b))
+		if dc, ok := v.(DontCarer); ok {
+			for _, r := range dc.DontCare() {
+				lo, hi := max(r[0], off+done), min(r[1], off+done+int64(len(b)))
+				for x := lo; x < hi; x++ {
+					want[x-off-done] = b[x-off-done]
+				}
+			}
+		}
 		if i := firstDiff(b, want[:len(b)]); i >= 0 {
 			return fail("wrong-bytes", v.Kind(), "%s: byte at view offset %d is %#02x, want %#02x (request off=%d)", what, off+done+int64(i), b[i], want[i], off)
 		}
